@@ -562,6 +562,7 @@ func splNoNil(s *sentPacketList, k int) bool {
 //@   modifies c.ptoTimerArmed, c.timer
 
 //@ func (*lossState).detectLoss(c, now, lossf)
+//@   timeout 45
 //@   trustcall lossf
 //@   uses lemmaModWrap
 //@   abstractrem
